@@ -101,6 +101,20 @@ func init() {
 				}
 			}
 		})
+		// SILENT tags contribute nothing, whatever the type of the value they compute - trusted HTML included -
+		// at top level and inside blocks
+		for _, t := range [][2]string{
+			{`a<% raw("<b>x</b>") %>b`, "ab"}, {`a<% hv %>b`, "ab"}, {`a<% raw("<i>") %>b<% hv %>c<%= hv %>`, "abc<u>"}, {`<% mkhtml("z") %>|<% blk() { %>in<% } %>|`, "||"},
+			{`<%= if (true) { %>a<% raw("<b>") %>b<% hv %>c<% } %>`, "abc"}, {`<%= for (i) in [1, 2] { %><% hv %><% raw("x") %><%= i %><% } %>`, "12"}, {`a<% contentFor("k") { %>K<% } %>b<% contentOf("k") %>c<%= contentOf("k") %>`, "abcK"},
+			{`a<% partial("pp") %>b<%= partial("pp") %>`, "abP"}, {`<% let f = fn() { return raw("<r>") } %>a<% f() %>b<%= f() %>`, "ab<r>"}, {`a<% [hv, raw("q")] %>b<% {k: hv} %>c`, "abc"},
+		} {
+			c := RCase{Tmpl: t[0], Binds: []Bind{{"hv", vHTML("<u>")}, {"mkhtml", vGo(102)}, {"blk", vGo(103)}}, Parts: map[string]string{"pp": "P"}}
+			o := e.addRenderCase("silent-html-values", c)
+			e.Distinct(t[0])
+			if o.Class != "OK" || o.Out != t[1] {
+				e.Violate("c02-concat", fmt.Sprintf("%s: rendered %q (%s %s), want %q", t[0], o.Out, o.Class, firstLine(o.Msg), t[1]), map[string]interface{}{"case": c, "observed": o})
+			}
+		}
 		// a return inside an INNER output block: the text and values that block had produced before the return
 		// stay in the output, in source order, followed by the returned value; nothing after the return is output
 		for _, t := range [][2]string{
